@@ -303,3 +303,19 @@ Proof.
     apply Rmult_le_compat_r; lra. }
   pose proof (X a s Rs B1). pose proof (X b e Re B2). unfold max_parse_value in *. lia.
 Qed.
+
+(* Sterbenz: an end within a factor two of the start (the object does not last longer than the time
+   at which it starts -- every spinner / hold that is not at the very beginning of a map) has an
+   exact difference *)
+From Flocq Require Import Sterbenz.
+Corollary times_ok_sterbenz (s e : F64) :
+  in_lim64 s = true -> in_lim64 e = true ->
+  (B2R s / 2 <= B2R e <= 2 * B2R s)%R ->
+  spinner_time_ok s (spinner_dur s e) /\ hold_time_ok s (hold_dur s e).
+Proof.
+  intros Hs He Hr. apply times_ok_exact; try assumption.
+  apply (@sterbenz radix2 (SpecFloat.fexp 53 1024) (fexp_correct 53 1024 Hp64) (fexp_monotone 53 1024)).
+  - apply generic_format_B2R.
+  - apply generic_format_B2R.
+  - exact Hr.
+Qed.
